@@ -13,6 +13,8 @@ PROP = dict(
         dict(module="MCClientDrain", cfg="MCClientDrain_asbuilt.cfg", expect_violation="InvDrained", timeout=300, workers=2),     # D16
         # mutant: the call cancels its own context before closing the body => with reuse the drain is cut short, body closed undrained
         dict(module="MCClientCall", cfg="MCClientCall_asbuilt_cancelfirst.cfg", expect_violation="InvReleased", timeout=300, workers=2),
+        # mutant: copying the body into a failing destination marks its end as seen => closed undrained with reuse
+        dict(module="MCClientCall", cfg="MCClientCall_asbuilt_copyend.cfg", expect_violation="InvReleased", timeout=300, workers=2),
         # liveness form of D9: with the pre-fix behaviour the writer goroutine never dies (temporal counterexample)
         dict(module="MCClientCall", cfg="MCClientCall_asbuilt_live.cfg", expect_violation="Temporal property WriterDies", timeout=600, workers=2),
     ],
